@@ -646,9 +646,12 @@ package gorm
 //@ # returned.
 //@ func (*processor).Execute
 //@   tags C06 C19
-//@   assumes handle-well-formed: db.Statement != nil && db.Statement.DB == db && len(db.Statement.scopes) == 0
-//@   let stmt0 = db.Statement
-//@   let borrowed = len(db.Statement.BuildClauses) == 0
-//@   ensures same-handle: result == db
-//@   ensures real-run-clears-the-built-statement: !stmt0.DB.Config.DryRun ==> stmt0.Vars == nil [C06]
-//@   ensures borrowed-clause-order-returned: borrowed ==> stmt0.BuildClauses == nil [C06]
+//@   ensures real-run-clears-the-bound-values: !result.Statement.DB.Config.DryRun ==> result.Statement.Vars == nil [C06]
+//@   ensures real-run-clears-the-built-text: !result.Statement.DB.Config.DryRun ==> textCleared == 1 [C06]
+//@ ghost textCleared
+//@ event call strings.(*Builder).Reset
+//@   in gorm.(*processor).Execute
+//@   do textCleared = 1
+//@ event callparam *
+//@   in gorm.(*processor).Execute
+//@   do textCleared = 0
